@@ -3295,21 +3295,17 @@ class FocusedSeq(Construct):
             def {fname}(obj, io, this):
                 this = Container(_ = this, _params = this['_params'], _root = None, _parsing = False, _building = True, _sizing = False, _subcons = None, _io = io, _index = this.get('_index', None))
                 this['_root'] = this['_'].get('_root', this)
-                try:
-                    this[{repr(self.parsebuildfrom)}] = obj
-                    finalobj = obj
+                this[{repr(self.parsebuildfrom)}] = obj
+                finalobj = obj
         """
         for sc in self.subcons:
             block += f"""
-                    {f'obj = {"finalobj" if sc.name == self.parsebuildfrom else "None"}'}
-                    {f'buildret = '}{sc._compilebuild(code)}
-                    {f'this[{repr(sc.name)}] = buildret' if sc.name else ''}
-                    {f'{"finalret = buildret" if sc.name == self.parsebuildfrom else ""}'}
+                {f'obj = {"finalobj" if sc.name == self.parsebuildfrom else "None"}'}
+                {f'buildret = '}{sc._compilebuild(code)}
+                {f'this[{repr(sc.name)}] = buildret' if sc.name else ''}
+                {f'{"finalret = buildret" if sc.name == self.parsebuildfrom else ""}'}
             """
         block += f"""
-                    pass
-                except StopFieldError:
-                    pass
                 return finalret
         """
         code.append(block)
